@@ -33,6 +33,7 @@ type RegProfile struct {
 	CatalogCap      int    `json:"catalog_cap,omitempty"`
 	LinkForm        int    `json:"link_form,omitempty"`     // 0-5: "last"-based next links in several spellings; 6,7: opaque continuation token
 	ServerFilter    string `json:"server_filter,omitempty"` // "" | header | annotation
+	MountDeny       string `json:"mount_deny,omitempty"`    // cross-repository mounts from this repository are answered 403
 }
 
 type regManifest struct {
@@ -88,6 +89,7 @@ type SimRegistry struct {
 	Fired            map[string]int
 	FaultReq         []int // numbers of the requests whose response was tampered with
 	uploadSeq        int
+	MountDenied      int                               // mount requests answered 403 (Profile.MountDeny)
 	PagedReferrers   int                               // referrers listings that continued on another page (workload requests only)
 	issuedTokens     map[string]bool                   // opaque continuation tokens handed out in Link headers
 	BodyRead         map[int]*int                      // bytes consumed from response bodies, per request number
@@ -185,6 +187,7 @@ func (s *SimRegistry) ResetFaultCounters() {
 	s.matchCnt = map[int]int{}
 	s.Fired = map[string]int{}
 	s.FaultReq = nil
+	s.MountDenied = 0
 }
 
 // referrersOf lists, in arrival order, the stored manifests whose subject is d.
@@ -466,6 +469,10 @@ func (s *SimRegistry) route(req *http.Request, body []byte, rec *ReqRecord) simR
 				d, err := digest.Parse(m)
 				if err != nil {
 					s.invalid("request %d: mount=%q is not a digest", n, m)
+				} else if s.Profile.MountDeny != "" && q.Get("from") == s.Profile.MountDeny {
+					// the client may not read the repository it names as source
+					s.MountDenied++
+					return plain(403, nil)
 				} else if s.Profile.MountOK {
 					if from := s.repos[q.Get("from")]; from != nil {
 						if b, ok := from.blobs[d]; ok {
